@@ -1,7 +1,7 @@
 import Lockable.Model.Proto
 open Lockable
 
-partial def loop (h : IO.FS.Stream) (out : IO.FS.Stream) (a : Api) : IO Unit := do
+partial def loop (h : IO.FS.Stream) (out : IO.FS.Stream) (a : DState) : IO Unit := do
   let line ← h.getLine
   if line.isEmpty then return ()
   if line.trimAscii.toString.isEmpty || line.startsWith "#" then
@@ -14,5 +14,5 @@ partial def loop (h : IO.FS.Stream) (out : IO.FS.Stream) (a : Api) : IO Unit := 
 def main : IO Unit := do
   let stdin ← IO.getStdin
   let stdout ← IO.getStdout
-  loop stdin stdout (Api.init .hashMap)
+  loop stdin stdout (.seq (Api.init .hashMap))
   stdout.flush
